@@ -8,9 +8,14 @@ from checks import common
 
 def run(tier, seed):
     chk = vlib.Check("C10", "model_checking", tier, seed)
-    bindir = vlib.build_harness("checked")
-    vlib.drive(bindir, "skfields", seed=seed, thorough=1 if tier == "thorough" else 0, out=chk.workdir, timeout=3600)
-    jobs = [(s, os.path.join(chk.workdir, "skfields_%d.ndjson" % s)) for s in (44, 65, 87)]
+    # both build profiles: with the library's self-checks on (an accepted malformed key trips them) and the release profile
+    # (where only the deserialiser's own test stands between a malformed string and a key object)
+    jobs = []
+    for profile in ("checked", "release"):
+        bindir = vlib.build_harness(profile)
+        out = os.path.join(chk.workdir, profile)
+        vlib.drive(bindir, "skfields", seed=seed, thorough=1 if tier == "thorough" else 0, out=out, timeout=3600)
+        jobs += [(s, os.path.join(out, "skfields_%d.ndjson" % s)) for s in (44, 65, 87)]
     mism, _ = common.validate_judged(chk, os.path.join(common.TRACE_DIR, "TraceCodec.tla"), jobs, nproc=12, chunk=24)
     cases = 0
     for s, p in jobs:
